@@ -70,6 +70,10 @@ func (t *ty) lean() string {
 		return "MTable"
 	case "Re":
 		return "(Option (Str → Bool))"
+	case "FileInfo":
+		return "(Option Bool)"
+	case "StatErr":
+		return "Nat"
 	case "Tuple":
 		s := []string{}
 		for _, e := range t.elems {
@@ -141,6 +145,7 @@ var sigs = map[string]sig{
 	"RedactMongoLog":                  {},
 	"ReadKeyFromFile":                 {},
 	"WriteKeyToFile":                  {},
+	"FileExists":                      {},
 }
 
 // functions that call one another: emitted in one `mutual` block, all with a fuel argument
@@ -149,7 +154,7 @@ var mutualGroups = [][]string{{"redactQueryValues", "redactArrayValuesWithKey"}}
 // emission order (callees first)
 var order = []string{"HashName", "reMatchesAnyKeyInPath", "redactString", "IsEmail", "withinSearchUserDocument", "RemoveElementAfter", "RemoveElementsBeforeIncluding",
 	"traverseMapPath", "getOp", "redactScalarValue", "isFieldNameValue", "isRedactableFieldPatternInArray", "isInSearchStage", "augmentOp",
-	"redactQueryValues", "redactArrayValuesWithKey", "redactArrayValues", "redactNamespaceFields", "redactOperation", "redactCommand", "redactNamespace", "RedactMongoLog", "ReadKeyFromFile", "WriteKeyToFile"}
+	"redactQueryValues", "redactArrayValuesWithKey", "redactArrayValues", "redactNamespaceFields", "redactOperation", "redactCommand", "redactNamespace", "RedactMongoLog", "ReadKeyFromFile", "WriteKeyToFile", "FileExists"}
 
 type gname struct {
 	lean string
@@ -800,6 +805,17 @@ func (x *tr) call(c *ast.CallExpr) ex {
 		if len(a) == 1 && a[0].t.k == "Str" {
 			return ex{"(errPair (g.ReadFile " + a[0].s + "))", &ty{k: "Tuple", elems: []*ty{T("Bytes"), T("Err")}}, a[0].partial}
 		}
+	case "os.Stat":
+		// what FileExists needs of the result: the FileInfo (nil next to an error) read through IsDir, the error read through os.IsNotExist
+		a := args()
+		if len(a) == 1 && a[0].t.k == "Str" {
+			return ex{"(statPair (g.Stat " + a[0].s + "))", &ty{k: "Tuple", elems: []*ty{T("FileInfo"), T("StatErr")}}, a[0].partial}
+		}
+	case "os.IsNotExist":
+		a := args()
+		if len(a) == 1 && a[0].t.k == "StatErr" {
+			return ex{"(isNotExist " + a[0].s + ")", T("Bool"), a[0].partial}
+		}
 	case "os.WriteFile":
 		// the write is the function's only effect: its three arguments (path, content, permission bits) are what the parameter sees
 		a := args()
@@ -918,6 +934,11 @@ func (x *tr) call(c *ast.CallExpr) ex {
 		recv := x.expr(se.X)
 		a := args()
 		switch se.Sel.Name {
+		case "IsDir":
+			// a method call on a nil FileInfo panics
+			if recv.t.k == "FileInfo" && len(a) == 0 {
+				return ex{"(← infoIsDir " + recv.s + ")", T("Bool"), true}
+			}
 		case "MatchString":
 			if recv.t.k == "Re" && len(a) == 1 && a[0].t.k == "Str" {
 				return ex{"(← reMatch " + recv.s + " " + a[0].s + ")", T("Bool"), true}
